@@ -153,6 +153,11 @@ pub(crate) fn execute_merge<S: GraphSnapshot>(
 pub trait WriteableGraph {
     fn create_node(&mut self, external_id: ExternalId, label_id: LabelId)
     -> Result<InternalNodeId>;
+    /// An external id for a node the statement itself creates: the first id at or after the
+    /// clock-derived `hint` that is not in use.  Stores that cannot tell keep the hint.
+    fn fresh_external_id(&mut self, hint: ExternalId) -> ExternalId {
+        hint
+    }
     fn add_node_label(&mut self, node: InternalNodeId, label_id: LabelId) -> Result<()>;
     fn remove_node_label(&mut self, node: InternalNodeId, label_id: LabelId) -> Result<()>;
     fn create_edge(
